@@ -18,21 +18,22 @@ def N_GECKO : Bytes := [0x67, 0x65, 0x63, 0x6b, 0x6f, 0x5f, 0x63, 0x6f, 0x64, 0x
 def N_FRAMES : Bytes := [0x66, 0x72, 0x61, 0x6d, 0x65, 0x73, 0x2e, 0x61, 0x72, 0x72, 0x6f, 0x77]                     -- frames.arrow
 
 /-- the external encoders / decoders and what is assumed of them -/
-structure Codec (χ : Type) where
+structure Codec (μ φ : Type) where
   encPeppi : Option String → Option Bool → Bytes          -- `serde_json::to_vec(&Peppi { version: CURRENT, slp_hash, quirks })`
   decPeppi : Bytes → Res PeppiMeta                          -- `serde_json::from_reader::<Peppi>` + `assert_current_version`
-  encMeta : Option χ → Bytes                                -- `serde_json::to_vec(&game.metadata)`
-  decMeta : Bytes → Res (Option χ)
+  encMeta : Option μ → Bytes                                -- `serde_json::to_vec(&game.metadata)`
+  decMeta : Bytes → Res (Option μ)
   startJson : Start → Bytes                                 -- contents the reader never looks at
   endJson : End → Bytes
-  encFrames : χ → Bytes                                     -- Arrow IPC file with the one struct array
-  decFrames : Bytes → Bool × List (SItem χ)                -- magic check, then what the stream reader yields
+  encFrames : φ → Bytes                                     -- Arrow IPC file with the one struct array
+  decFrames : Bytes → Bool × List (SItem φ)                -- magic check, then what the stream reader yields
+  norm : φ → φ                                              -- what the IPC round trip does to a frame tree (an all-set validity comes back absent)
   peppi_rt : ∀ h q, decPeppi (encPeppi h q) = .ok ⟨true, h, q⟩
   meta_rt : ∀ m, decMeta (encMeta m) = .ok m
-  frames_rt : ∀ f, decFrames (encFrames f) = (true, [.chunk f])
+  frames_rt : ∀ f, decFrames (encFrames f) = (true, [.chunk (norm f)])
 
 /-- `read`'s dispatch on the entry name -/
-def classify {χ : Type} (C : Codec χ) (e : Bytes × Bytes) : PEntry χ :=
+def classify {μ φ : Type} (C : Codec μ φ) (e : Bytes × Bytes) : PEntry μ φ :=
   if e.1 = N_PEPPI then .peppiJson (C.decPeppi e.2)
   else if e.1 = N_STARTR then .startRaw e.2
   else if e.1 = N_ENDR then .endRaw e.2
@@ -42,26 +43,26 @@ def classify {χ : Type} (C : Codec χ) (e : Bytes × Bytes) : PEntry χ :=
   else .other
 
 /-- the (name, contents) list `write` appends -/
-def slppEntries {χ : Type} (C : Codec χ) (g : PGame χ) (startBytes : Bytes) (endBytes : Option Bytes) : List (Bytes × Bytes) :=
+def slppEntries {μ φ : Type} (C : Codec μ φ) (g : PGame μ φ) (startBytes : Bytes) (endBytes : Option Bytes) : List (Bytes × Bytes) :=
   [(N_PEPPI, C.encPeppi g.hash g.quirks), (N_META, C.encMeta g.metadata), (N_STARTJ, C.startJson g.start), (N_STARTR, startBytes)] ++
   ((match g.fend, endBytes with | some e, some eb => [(N_ENDJ, C.endJson e), (N_ENDR, eb)] | _, _ => []) ++
    ((match g.gecko with | some c => [(N_GECKO, leU32' c.2 ++ c.1)] | none => []) ++
     (match g.frames with | some f => [(N_FRAMES, C.encFrames f)] | none => [])))
 
 /-- `io::peppi::write`, bytes -/
-def slppWrite {χ : Type} (C : Codec χ) (g : PGame χ) (startBytes : Bytes) (endBytes : Option Bytes) : Bytes :=
+def slppWrite {μ φ : Type} (C : Codec μ φ) (g : PGame μ φ) (startBytes : Bytes) (endBytes : Option Bytes) : Bytes :=
   tarArchive (slppEntries C g startBytes endBytes)
 
 /-- `io::peppi::read`, bytes -/
-def slppRead {χ : Type} (C : Codec χ) (T : TextOracle) (skip : Bool) (bs : Bytes) : Res (PGame χ) :=
+def slppRead {μ φ : Type} (C : Codec μ φ) (T : TextOracle) (skip : Bool) (bs : Bytes) : Res (PGame μ φ) :=
   match tarRead (bs.length / 512 + 2) bs with
   | .ok (es, trailerOk) => peppiRead T skip trailerOk (es.map (classify C))
   | .err e => .err e
   | .panic p => .panic p
 
-theorem classify_written {χ : Type} (C : Codec χ) (g : PGame χ) (startBytes : Bytes) (endBytes : Option Bytes)
+theorem classify_written {μ φ : Type} (C : Codec μ φ) (g : PGame μ φ) (startBytes : Bytes) (endBytes : Option Bytes)
     (hend : endBytes.isSome = g.fend.isSome) :
-    (slppEntries C g startBytes endBytes).map (classify C) = writtenEntries g startBytes endBytes := by
+    (slppEntries C g startBytes endBytes).map (classify C) = writtenEntries { g with frames := g.frames.map C.norm } startBytes endBytes := by
   have n1 : classify C (N_PEPPI, C.encPeppi g.hash g.quirks) = .peppiJson (.ok ⟨true, g.hash, g.quirks⟩) := by
     simp [classify, C.peppi_rt]
   have n2 : classify C (N_META, C.encMeta g.metadata) = .metadataJson (.ok g.metadata) := by
@@ -80,7 +81,7 @@ theorem classify_written {χ : Type} (C : Codec χ) (g : PGame χ) (startBytes :
   have n4 : classify C (N_STARTR, startBytes) = .startRaw startBytes := by
     have a1 : ¬ N_STARTR = N_PEPPI := by decide
     simp [classify, a1]
-  have n5 : ∀ x, classify C (N_ENDJ, x) = (.other : PEntry χ) := by
+  have n5 : ∀ x, classify C (N_ENDJ, x) = (.other : PEntry μ φ) := by
     intro x
     have a1 : ¬ N_ENDJ = N_PEPPI := by decide
     have a2 : ¬ N_ENDJ = N_STARTR := by decide
@@ -89,19 +90,19 @@ theorem classify_written {χ : Type} (C : Codec χ) (g : PGame χ) (startBytes :
     have a5 : ¬ N_ENDJ = N_GECKO := by decide
     have a6 : ¬ N_ENDJ = N_FRAMES := by decide
     simp [classify, a1, a2, a3, a4, a5, a6]
-  have n6 : ∀ x, classify C (N_ENDR, x) = (.endRaw x : PEntry χ) := by
+  have n6 : ∀ x, classify C (N_ENDR, x) = (.endRaw x : PEntry μ φ) := by
     intro x
     have a1 : ¬ N_ENDR = N_PEPPI := by decide
     have a2 : ¬ N_ENDR = N_STARTR := by decide
     simp [classify, a1, a2]
-  have n7 : ∀ x, classify C (N_GECKO, x) = (.geckoRaw x : PEntry χ) := by
+  have n7 : ∀ x, classify C (N_GECKO, x) = (.geckoRaw x : PEntry μ φ) := by
     intro x
     have a1 : ¬ N_GECKO = N_PEPPI := by decide
     have a2 : ¬ N_GECKO = N_STARTR := by decide
     have a3 : ¬ N_GECKO = N_ENDR := by decide
     have a4 : ¬ N_GECKO = N_META := by decide
     simp [classify, a1, a2, a3, a4]
-  have n8 : ∀ f, classify C (N_FRAMES, C.encFrames f) = (.framesArrow true [.chunk f] : PEntry χ) := by
+  have n8 : ∀ f, classify C (N_FRAMES, C.encFrames f) = (.framesArrow true [.chunk (C.norm f)] : PEntry μ φ) := by
     intro f
     have a1 : ¬ N_FRAMES = N_PEPPI := by decide
     have a2 : ¬ N_FRAMES = N_STARTR := by decide
@@ -115,13 +116,13 @@ theorem classify_written {χ : Type} (C : Codec χ) (g : PGame χ) (startBytes :
     cases hk : g.gecko <;> cases hf : g.frames <;> simp [endEntries, geckoEntries, framesEntries, n5, n6, n7, n8]
 
 /-- every entry the writer emits fits the tar header (names of 7–15 non-NUL bytes; contents below 8 GiB) -/
-def SizesOK {χ : Type} (C : Codec χ) (g : PGame χ) (startBytes : Bytes) (endBytes : Option Bytes) : Prop :=
+def SizesOK {μ φ : Type} (C : Codec μ φ) (g : PGame μ φ) (startBytes : Bytes) (endBytes : Option Bytes) : Prop :=
   ∀ e ∈ slppEntries C g startBytes endBytes, e.2.length < 8 ^ 11
 
 def NameOK (n : Bytes) : Prop := 0 < n.length ∧ n.length ≤ 100 ∧ ∀ b ∈ n, b ≠ 0
 instance (n : Bytes) : Decidable (NameOK n) := by unfold NameOK; exact inferInstance
 
-theorem slppEntries_names {χ : Type} (C : Codec χ) (g : PGame χ) (startBytes : Bytes) (endBytes : Option Bytes) :
+theorem slppEntries_names {μ φ : Type} (C : Codec μ φ) (g : PGame μ φ) (startBytes : Bytes) (endBytes : Option Bytes) :
     ∀ e ∈ slppEntries C g startBytes endBytes, NameOK e.1 := by
   have k1 : NameOK N_PEPPI := by decide
   have k2 : NameOK N_META := by decide
@@ -150,7 +151,7 @@ theorem slppEntries_names {χ : Type} (C : Codec χ) (g : PGame χ) (startBytes 
     · simp only [List.mem_singleton] at he; subst he; exact k8
     · cases he
 
-theorem slppEntries_ok {χ : Type} (C : Codec χ) (g : PGame χ) (startBytes : Bytes) (endBytes : Option Bytes)
+theorem slppEntries_ok {μ φ : Type} (C : Codec μ φ) (g : PGame μ φ) (startBytes : Bytes) (endBytes : Option Bytes)
     (hs : SizesOK C g startBytes endBytes) : ∀ e ∈ slppEntries C g startBytes endBytes, EntryOK e := by
   intro e he
   obtain ⟨a, b, c⟩ := slppEntries_names C g startBytes endBytes e he
@@ -158,12 +159,13 @@ theorem slppEntries_ok {χ : Type} (C : Codec χ) (g : PGame χ) (startBytes : B
 
 /-- **`.slpp` round trip, byte level** (C02 / C18; C10 with `skip`): reading the bytes `write` produced returns the game —
     all of it, or with the empty frame set under skip-frames -/
-theorem slppRead_written {χ : Type} (C : Codec χ) (T : TextOracle) (g : PGame χ) (startBytes : Bytes) (endBytes : Option Bytes)
+theorem slppRead_written {μ φ : Type} (C : Codec μ φ) (T : TextOracle) (g : PGame μ φ) (startBytes : Bytes) (endBytes : Option Bytes)
     (hstart : gameStart T startBytes = .ok g.start)
     (hend : endBytes.map gameEnd = g.fend.map Res.ok)
     (hgecko : ∀ c, g.gecko = some c → c.2 < 2 ^ 32)
     (hs : SizesOK C g startBytes endBytes) (skip : Bool) :
-    slppRead C T skip (slppWrite C g startBytes endBytes) = .ok (if skip then { g with frames := none } else g) := by
+    slppRead C T skip (slppWrite C g startBytes endBytes) =
+      .ok (if skip then { g with frames := none } else { g with frames := g.frames.map C.norm }) := by
   have hendS : endBytes.isSome = g.fend.isSome := by
     cases endBytes <;> cases hf : g.fend <;> simp [hf] at hend ⊢
   have hlen : (slppEntries C g startBytes endBytes).length < (slppWrite C g startBytes endBytes).length / 512 + 2 := by
@@ -175,11 +177,11 @@ theorem slppRead_written {χ : Type} (C : Codec χ) (T : TextOracle) (g : PGame 
   rw [tarRead_archive _ (slppEntries_ok C g startBytes endBytes hs) _ hlen]
   simp only [classify_written C g startBytes endBytes hendS]
   cases skip with
-  | false => simpa using peppiRead_written T g startBytes endBytes true hstart hend hgecko (fun _ => rfl)
-  | true => simpa using peppiRead_written_skip T g startBytes endBytes true hstart hend hgecko (fun _ => rfl)
+  | false => simpa using peppiRead_written T { g with frames := g.frames.map C.norm } startBytes endBytes true hstart hend hgecko (fun _ => rfl)
+  | true => simpa using peppiRead_written_skip T { g with frames := g.frames.map C.norm } startBytes endBytes true hstart hend hgecko (fun _ => rfl)
 
 /-- **C18**: the file signature is at offset 0 of what `write` produces, whatever the game -/
-theorem slppWrite_signature {χ : Type} (C : Codec χ) (g : PGame χ) (startBytes : Bytes) (endBytes : Option Bytes) :
+theorem slppWrite_signature {μ φ : Type} (C : Codec μ φ) (g : PGame μ φ) (startBytes : Bytes) (endBytes : Option Bytes) :
     (slppWrite C g startBytes endBytes).take 10 = N_PEPPI := by
   exact tarArchive_starts N_PEPPI _ _
 
@@ -188,7 +190,7 @@ theorem slppWrite_signature {χ : Type} (C : Codec χ) (g : PGame χ) (startByte
 end Peppi
 
 namespace Peppi
-/-! ### the codec laws are jointly satisfiable (a toy codec over `χ := Bytes`) -/
+/-! ### the codec laws are jointly satisfiable (a toy codec with `μ := φ := Bytes`) -/
 
 /-- characters as `1, <4 bytes>` each, terminated by `0` -/
 def encChars : List Char → Bytes
@@ -249,7 +251,7 @@ def toyDecPeppi (bs : Bytes) : Res PeppiMeta :=
   | _ => .err "json"
 
 /-- a codec that satisfies the three laws -/
-def toyCodec : Codec Bytes where
+def toyCodec : Codec Bytes Bytes where
   encPeppi h q := encOptStr h ++ encOptBool q
   decPeppi := toyDecPeppi
   encMeta m := match m with | none => [0] | some b => 1 :: b
@@ -258,6 +260,7 @@ def toyCodec : Codec Bytes where
   endJson _ := []
   encFrames f := f
   decFrames bs := (true, [.chunk bs])
+  norm f := f
   peppi_rt h q := by
     cases h with
     | none => simp [encOptStr, toyDecPeppi, decOptBool_enc]
@@ -273,15 +276,16 @@ end Peppi
 namespace Peppi
 /-- any codec with its metadata part replaced by the JSON text model (`JsonText.lean`): the `meta_rt` law is then a theorem
     (`parseMeta_json`), not an assumption -/
-def Codec.withJsonMeta (C : Codec KVs) : Codec KVs :=
+def Codec.withJsonMeta {φ : Type} (C : Codec KVs φ) : Codec KVs φ :=
   { C with encMeta := jsonMeta, decMeta := parseMeta, meta_rt := parseMeta_json }
 
 /-- the byte-level round trip with the metadata entry as real JSON text -/
-theorem slppRead_written_json (C : Codec KVs) (T : TextOracle) (g : PGame KVs) (startBytes : Bytes) (endBytes : Option Bytes)
+theorem slppRead_written_json {φ : Type} (C : Codec KVs φ) (T : TextOracle) (g : PGame KVs φ) (startBytes : Bytes) (endBytes : Option Bytes)
     (hstart : gameStart T startBytes = .ok g.start)
     (hend : endBytes.map gameEnd = g.fend.map Res.ok)
     (hgecko : ∀ c, g.gecko = some c → c.2 < 2 ^ 32)
     (hs : SizesOK C.withJsonMeta g startBytes endBytes) (skip : Bool) :
-    slppRead C.withJsonMeta T skip (slppWrite C.withJsonMeta g startBytes endBytes) = .ok (if skip then { g with frames := none } else g) :=
+    slppRead C.withJsonMeta T skip (slppWrite C.withJsonMeta g startBytes endBytes) =
+      .ok (if skip then { g with frames := none } else { g with frames := g.frames.map C.norm }) :=
   slppRead_written C.withJsonMeta T g startBytes endBytes hstart hend hgecko hs skip
 end Peppi
